@@ -577,6 +577,68 @@ static bool gen_corner(Ctx& ctx, Case& c) {
   return true;
 }
 
+// coiled SIMPLE polygons that contain the rectangle without touching it: a thick spiral arm (out along r(t), back along
+// r(t) - w, w below the pitch, so the arm never overlaps itself) with a small rectangle inside the corridor, or a polygon
+// whose head surrounds the rectangle and whose arm then coils round it. Seen from the rectangle such a path makes
+// full turns in both senses before it closes - unlike convex or star-shaped enclosing polygons and unlike the
+// self-intersecting spirals of class 2, for which only parity is demanded.
+static bool gen_coiled(Ctx& ctx, Case& c) {
+  Rng& r = ctx.rng;
+  int e = kMag[r.irange(0, 7)]; if (e < 10) e = 10;
+  const int64_t M = (int64_t)1 << e;
+  for (int attempt = 0; attempt < 8; ++attempt) {
+    const double turns = r.real(1.3, 3.6); const int per = r.irange(5, 14); const bool rectil = r.chance(0.3);
+    const double Rout = (double)M * r.real(0.3, 0.9), pitch = Rout / (turns + 1.5), w = pitch * r.real(0.35, 0.8), r0 = pitch * r.real(1.1, 1.5);
+    const double phase = r.real(0, 6.2831853); const double sgn = r.coin() ? 1.0 : -1.0;
+    const int N = (int)(turns * per);
+    Path64 outer, inner;
+    for (int k = 0; k <= N; ++k) {
+      double t = (double)k / per, a = phase + sgn * 6.283185307179586 * t;
+      if (rectil) a = phase + sgn * 1.5707963267948966 * std::floor(4.0 * t + 0.5);          // staircase-like: right-angle turns
+      double ro = r0 + pitch * t, ri = ro - w;
+      outer.emplace_back((int64_t)llround(ro * std::cos(a)), (int64_t)llround(ro * std::sin(a)));
+      inner.emplace_back((int64_t)llround(ri * std::cos(a)), (int64_t)llround(ri * std::sin(a)));
+    }
+    Path64 p = outer; for (size_t k = inner.size(); k-- > 0;) p.push_back(inner[k]);
+    strip_consecutive(p);
+    if (p.size() < 8) continue;
+    // rectangle inside the corridor, at a random place along the arm (or near the inner end: "head")
+    double ts = r.chance(0.3) ? r.real(0.05, 0.3) : r.real(0.3, turns - 0.3);
+    double as = phase + sgn * 6.283185307179586 * ts, rs = r0 + pitch * ts - w / 2;
+    int64_t cx = (int64_t)llround(rs * std::cos(as)), cy = (int64_t)llround(rs * std::sin(as));
+    int64_t hw = std::max<int64_t>(1, (int64_t)(w * r.real(0.02, 0.12))), hh = std::max<int64_t>(1, (int64_t)(w * r.real(0.02, 0.12)));
+    RB R{ cx - hw, cy - hh, cx + hw, cy + hh };
+    // premise of this class, verified exactly: the polygon is simple, every corner of the rectangle is strictly inside it and
+    // the path stays more than 2 units away from the rectangle
+    bool simple = true;
+    for (size_t a = 0; a < p.size() && simple; ++a) for (size_t b = a + 2; b < p.size(); ++b) {
+      if (a == 0 && b == p.size() - 1) continue;
+      if (segs_touch(p[a], p[(a + 1) % p.size()], p[b], p[(b + 1) % p.size()])) { simple = false; break; } }
+    if (!simple) { ctx.count("coiled_candidate_not_simple"); continue; }
+    bool ok = true;
+    for (const Point64& q : { Point64(R.l, R.t), Point64(R.r, R.t), Point64(R.r, R.b), Point64(R.l, R.b) }) { bool on = false; if (winding1(p, q, &on) == 0 || on) ok = false; }
+    Path64 rp{ Point64(R.l, R.t), Point64(R.r, R.t), Point64(R.r, R.b), Point64(R.l, R.b) };
+    for (auto& v : p) if (min_dist_to_edges(Paths64{ rp }, v) < 3) ok = false;
+    for (auto& v : rp) if (min_dist_to_edges(Paths64{ p }, v) < 3) ok = false;
+    if (!ok) { ctx.count("coiled_candidate_rect_not_clear_inside"); continue; }
+    // translate somewhere, rotate the start vertex, maybe reverse
+    int64_t room = std::max<int64_t>(0, kLim - max_abs_coord(Paths64{ p }) - 1);
+    int64_t tx = r.chance(0.5) ? 0 : r.range(-room, room), ty = r.chance(0.5) ? 0 : r.range(-room, room);
+    for (auto& v : p) { v.x += tx; v.y += ty; }
+    std::rotate(p.begin(), p.begin() + (long)r.range(0, (int64_t)p.size() - 1), p.end());
+    if (r.coin()) std::reverse(p.begin(), p.end());
+    Paths64 P{ p };
+    if (r.chance(0.3)) P.push_back(gen::star_shaped(r, cx + tx, cy + ty, (double)std::max<int64_t>(4, std::min(hw, hh)) * 0.8, r.irange(3, 6), 0.5, 1.0, r.coin()));   // plus something inside the rectangle
+    c.p64["P"] = P;
+    c.p64["R"] = Paths64{ Path64{ Point64(R.l + tx, R.t + ty), Point64(R.r + tx, R.b + ty) } };
+    c.seti("lat_s", 0); c.set("class", "coiled");
+    ctx.count("mag_2^" + std::to_string(e));
+    ctx.count("coiled_scenes_turns_" + std::to_string((int)turns));
+    return true;
+  }
+  return false;
+}
+
 } // namespace
 
 void vf_case(Ctx& ctx, uint64_t i) {
@@ -586,7 +648,8 @@ void vf_case(Ctx& ctx, uint64_t i) {
   if (sel < 11) ok = gen_lattice(ctx, c);
   else if (sel < 12) ok = gen_corner(ctx, c);
   else if (sel < 14) ok = gen_random(ctx, c, 1);
-  else if (sel < 16) ok = gen_random(ctx, c, 2);
+  else if (sel < 15) ok = gen_random(ctx, c, 2);
+  else if (sel < 16) ok = gen_coiled(ctx, c);
   else ok = gen_random(ctx, c, 0);
   if (!ok) { ctx.count("gen_gave_up"); return; }
   ctx.count("class_" + c.gets("class"));
